@@ -150,6 +150,44 @@ def extrapolation(res, r, n):
             res.traces += 1
 
 
+def pre(res):
+    from gen import gen_geom1, gen_fields
+
+    try:
+        c1 = gen_geom1.main()
+        c2 = gen_fields.main()
+        res.extra["generated"] = {"files": ["lean/HypnoModel/Gen/Geom1.lean", "lean/HypnoModel/Gen/Fields.lean"], "changed_since_last_run": bool(c1 or c2)}
+    except Exception as e:
+        res.extra["generated"] = {"error": "%s: %s" % (type(e).__name__, e)}
+        res.gen_error = "%s: %s" % (type(e).__name__, e)
+
+
+def geom1_twin(res, grids, r):
+    """the generated geometry1 formulas, executed over Float by the driver, against the values the real code wrote"""
+    lines, want = [], []
+    for g in grids:
+        if g["error"]:
+            continue
+        v = g["vars"]
+        nx, ny = v["Rxy"].shape
+        for _ in range(40):
+            i, j = r.randrange(nx), r.randrange(ny)
+            for suf in ("", "_xlow", "_ylow"):
+                br, bz, bp, bt, b = (float(v[n + suf][i, j]) for n in ("Brxy", "Bzxy", "Bpxy", "Btxy", "Bxy"))
+                lines.append("c03g %s %s %s %s" % tuple(vlib.f2hex(t) for t in (br, bz, bp, bt)))
+                want.append((abs(bp), b, gname(g), suf, i, j))
+    if not lines:
+        return
+    mo = vlib.lean_driver(lines)
+    for ln, (wbp, wb, name, suf, i, j), m in zip(lines, want, mo):
+        res.case(key=("geom1", name, suf), nontrivial=True)
+        gbp, gb = (vlib.hex2f(t) for t in m.split())
+        if abs(gbp - wbp) > 4e-16 * abs(wbp) or abs(gb - wb) > 4e-16 * abs(wb):   # (numpy's vectorised square/sqrt differ by an ulp from scalar C)
+            res.broken("generated geometry1 formulas (Float twin) differ from the written Bpxy/Bxy", {"grid": name, "loc": suf, "cell": [i, j], "model": [gbp, gb], "file": [wbp, wb]})
+            return
+    res.traces += len(lines)
+
+
 def run(res, tier):
     import gridlab
 
@@ -160,7 +198,9 @@ def run(res, tier):
                 "separatrix, scalars against the critical points; extrapolate_profiles on three families x three edge pressures. "
                 "distinct by (grid) / (family, edge pressure)")
     res.trusted += ["scipy InterpolatedUnivariateSpline for fpol and pressure (evaluated through the equilibrium's own methods)"]
-    for g in gridlab.get(specs(tier)):
+    grids = gridlab.get(specs(tier))
+    geom1_twin(res, grids, r)
+    for g in grids:
         name = gname(g)
         if g["error"]:
             res.case(key=("grid-refused", name, g["error"][0]), nontrivial=False)
